@@ -282,8 +282,12 @@ func bucket(n int) string {
 // ---- negative family: objects in an order the receiver must refuse -----------------------------
 
 type NegCase struct {
-	Kind string `json:"kind"` // commit-before-parent | table-before-block
+	Kind string `json:"kind"` // commit-before-parent | table-before-block | truncated
 	Tbl  int    `json:"tbl"`
+	// truncated: the packfile of a complete one-commit transfer is cut strictly inside its
+	// Obj-th object (mod number of objects), Off per mille into that object
+	Obj int `json:"obj,omitempty"`
+	Off int `json:"off,omitempty"`
 }
 
 var subNeg = evid.Register("out-of-order", runNeg)
@@ -291,7 +295,12 @@ var subNeg = evid.Register("out-of-order", runNeg)
 func TestPropOutOfOrder(t *testing.T) {
 	rapid.Check(t, func(t *rapid.T) {
 		// pool tables 0..4 and 6 have two blocks (5 has one: it cannot arrive "before one of its blocks")
-		subNeg.Check(t, NegCase{Kind: rapid.SampledFrom([]string{"commit-before-parent", "table-before-block"}).Draw(t, "kind"), Tbl: rapid.SampledFrom([]int{0, 1, 2, 3, 4, 6}).Draw(t, "tbl")})
+		c := NegCase{Kind: rapid.SampledFrom([]string{"commit-before-parent", "table-before-block", "truncated", "truncated"}).Draw(t, "kind"), Tbl: rapid.SampledFrom([]int{0, 1, 2, 3, 4, 6}).Draw(t, "tbl")}
+		if c.Kind == "truncated" {
+			c.Obj = rapid.IntRange(0, 5).Draw(t, "obj")
+			c.Off = rapid.SampledFrom([]int{0, 1, 500, 999, 1000}).Draw(t, "off")
+		}
+		subNeg.Check(t, c)
 	})
 }
 
@@ -313,6 +322,39 @@ func runNeg(c NegCase) (o evid.Outcome, err error) {
 	w, _ := packfile.NewPackfileWriter(&buf)
 	var key string
 	switch c.Kind {
+	case "truncated":
+		// blocks, table, root commit - a complete, valid transfer - cut inside one object
+		tbl, _ := objects.GetTable(src, pool[c.Tbl])
+		bounds := []int{buf.Len()}
+		for _, bs := range tbl.Blocks {
+			bb, _ := src.Raw("blk/" + string(bs))
+			w.WriteObject(packfile.ObjectBlock, bb)
+			bounds = append(bounds, buf.Len())
+		}
+		tb, _ := src.Raw("tbl/" + string(pool[c.Tbl]))
+		w.WriteObject(packfile.ObjectTable, tb)
+		bounds = append(bounds, buf.Len())
+		cb, _ := src.Raw("com/" + string(sums[0]))
+		w.WriteObject(packfile.ObjectCommit, cb)
+		bounds = append(bounds, buf.Len())
+		i := c.Obj % (len(bounds) - 1)
+		lo, hi := bounds[i]+1, bounds[i+1]-1 // strictly inside object i
+		cut := lo + (hi-lo)*c.Off/1000
+		recv := apiutils.NewObjectReceiver(dst, [][]byte{sums[0]}, logr.Discard())
+		pr, err := packfile.NewPackfileReader(io.NopCloser(bytes.NewReader(buf.Bytes()[:cut])))
+		if err != nil {
+			return o, fmt.Errorf("HARNESS: %v", err)
+		}
+		done, rerr := recv.Receive(pr, nil)
+		o.NonTrivial = true
+		o.Class("kind=%s", c.Kind)
+		if rerr == nil {
+			return o, fmt.Errorf("truncated: a packfile of %d bytes cut at byte %d (inside object %d of %d) was received without an error (done=%v)", buf.Len(), cut, i, len(bounds)-1, done)
+		}
+		if _, ok := dst.Raw("com/" + string(sums[0])); ok && i < len(bounds)-2 {
+			return o, fmt.Errorf("truncated: the commit is stored although the packfile ended inside object %d", i)
+		}
+		return o, nil
 	case "commit-before-parent":
 		b, _ := src.Raw("com/" + string(sums[1]))
 		w.WriteObject(packfile.ObjectCommit, b)
